@@ -156,14 +156,7 @@ def check(rep, tier, seed):
     cases += [race_case(seed, i, ENGINES[i % 3]) for i in range(12 if tier == "quick" else 1500)]
     cases += [overtaken_case(seed, i, ENGINES[i % 3]) for i in range(12 if tier == "quick" else 1500)]
     core.run_cases(cases)
-    for c in cases:
-        rep.count_case(c)
-        hit = race_oracle(c) if c.meta.get("race") else overtaken_oracle(c) if c.meta.get("overtaken") else oracle(c)
-        if hit:
-            if core.handle_oracle_hit(rep, "C08", hit[1], c, hit[0], hit[1], shrink_fn=lambda x: oracle(x) is not None):
-                return
-            continue
-        if c.diff() is not None:
-            core.handle_diff(rep, "C08", "correspondence", c)
-            return
+    pick = lambda c: race_oracle(c) if c.meta.get("race") else overtaken_oracle(c) if c.meta.get("overtaken") else oracle(c)
+    if core.judge(rep, "C08", cases, pick, shrink_fn=lambda x: pick(x) is not None):
+        return
     rep.assumptions += ["sequential compaction requests (a single compactor, as run by the leader's periodic job)"]
